@@ -374,7 +374,7 @@ func (p *picture) text() string {
 	return s
 }
 
-var c18Affix = []string{"", "", "", "$", "(", ")", " x", "€ ", "~", "[", "]", "USD "}
+var c18Affix = []string{"", "", "", "$", "(", ")", " x", "€ ", "~", "[", "]", "USD ", " metres", "fee ", " each", "e"}
 
 func genPicture(r *prng.R) *picture {
 	p := &picture{dec: ".", grp: ",", minus: "-", percent: "%", permille: "‰"}
